@@ -38,6 +38,9 @@ pub enum PTy {
     ImplFn,
     BoxDyn,
     SliceNamed(usize),
+    /// further mentions of the dependency's own type parameter `D` (named-generic deps only)
+    DepsOpt,
+    DepsVec,
 }
 
 #[derive(Clone, Debug, PartialEq)]
@@ -53,6 +56,8 @@ pub enum RTy {
     FromElidedArg,
     Gen,
     OptFromArg(usize),
+    /// `Option<D>`: the dependency's type parameter in the return type
+    DepsOpt,
 }
 
 #[derive(Clone, Debug)]
@@ -119,6 +124,8 @@ impl Sig {
             PTy::ImplFn => format!("impl Fn(i32) -> i32{}", if self.is_async && !self.maybe_send_off { " + Send" } else { "" }),
             PTy::BoxDyn => "Box<dyn Fn() + Send>".into(),
             PTy::SliceNamed(l) => format!("&{} [u8]", LT[*l]),
+            PTy::DepsOpt => "Option<D>".into(),
+            PTy::DepsVec => "Vec<D>".into(),
         }
     }
 
@@ -136,6 +143,7 @@ impl Sig {
             RTy::FromElidedArg => " -> &str".into(),
             RTy::Gen => " -> T".into(),
             RTy::OptFromArg(l) => format!(" -> Option<&{} str>", LT[*l]),
+            RTy::DepsOpt => " -> Option<D>".into(),
         }
     }
 
@@ -271,6 +279,8 @@ impl Sig {
             PTy::RefGenNamed(l) => format!("&{} i64", LT[*l]),
             PTy::ArrConst => "[u8; 3]".into(),
             PTy::ImplFn => "fn(i32) -> i32".into(),
+            PTy::DepsOpt => "Option<A>".into(),
+            PTy::DepsVec => "Vec<A>".into(),
             other => self.pty_src(other),
         }
     }
@@ -288,6 +298,7 @@ impl Sig {
             }
             RTy::Gen => "i64".into(),
             RTy::OptFromArg(l) => format!("Option<&{} str>", LT[*l]),
+            RTy::DepsOpt => "Option<A>".into(),
         }
     }
 
@@ -488,6 +499,14 @@ pub fn gen_sig(t: &mut Tape, excl: &Excl) -> Sig {
         params.push(p);
     }
     let _ = used_elided;
+    // the dependency's own type parameter mentioned again (by value: no further lifetimes; sync or `?Send` only, a Send future
+    // would need `D: Send`, which is the user's business)
+    let deps_again = matches!(deps, Deps::RefGeneric | Deps::ValGeneric) && !deps_maybe_sized && !excl.deps_type_param_used_elsewhere && (!is_async || maybe_send_off) && t.chance(1, 4);
+    if deps_again && t.chance(2, 3) {
+        let p = if t.flip() { PTy::DepsOpt } else { PTy::DepsVec };
+        let at = t.choose(params.len() + 1);
+        params.insert(at, p);
+    }
     let has_gen = params.iter().any(|p| matches!(p, PTy::Gen | PTy::RefGenNamed(_)));
     let n_elided = params.iter().filter(|p| **p == PTy::RefElided).count();
     // return type: only relations that are valid in the ORIGINAL fn
@@ -512,6 +531,12 @@ pub fn gen_sig(t: &mut Tape, excl: &Excl) -> Sig {
     let mut has_gen = has_gen;
     if has_gen || t.chance(1, 8) {
         rets.push(RTy::Gen);
+    }
+    if deps_again {
+        rets.push(RTy::DepsOpt);
+        if !params.iter().any(|p| matches!(p, PTy::DepsOpt | PTy::DepsVec)) {
+            rets = vec![RTy::DepsOpt];
+        }
     }
     let ret = rets[t.choose(rets.len())].clone();
     if ret == RTy::Gen {
@@ -552,6 +577,7 @@ pub struct Excl {
     pub by_value_concrete: bool,
     pub no_deps_elided_return: bool,
     pub relaxed_and_lifetime_deps_bounds: bool,
+    pub deps_type_param_used_elsewhere: bool,
 }
 
 pub struct Case {
@@ -643,6 +669,9 @@ pub fn gen_case(t: &mut Tape, excl: &Excl) -> Case {
     if sig.lt_pred {
         classes.push("lifetime_predicate");
     }
+    if sig.params.iter().any(|p| matches!(p, PTy::DepsOpt | PTy::DepsVec)) || sig.ret == RTy::DepsOpt {
+        classes.push("deps_type_parameter_used_elsewhere");
+    }
     if sig.extra_where.is_some() {
         classes.push("where_predicate_on_non_parameter_type");
     }
@@ -709,6 +738,7 @@ pub fn run(ctx: &mut Ctx) {
         by_value_concrete: open.iter().any(|f| f.key == "by-value-concrete-deps"),
         no_deps_elided_return: open.iter().any(|f| f.key == "no-deps-elided-return"),
         relaxed_and_lifetime_deps_bounds: open.iter().any(|f| f.key == "relaxed-or-lifetime-deps-bound"),
+        deps_type_param_used_elsewhere: open.iter().any(|f| f.key == "deps-type-param-used-elsewhere"),
     };
     for f in &open {
         if !["const-generic-duplicated", "lifetime-predicates-lifted", "by-value-concrete-deps", "no-deps-elided-return", "relaxed-or-lifetime-deps-bound", "deps-type-param-used-elsewhere"].contains(&f.key.as_str()) {
